@@ -42,6 +42,9 @@ func (a *HTMLFragmentFormatter) Format(f *Fragment, orderedTermLocations TermLoc
 		if termLocation == nil {
 			continue
 		}
+		if termLocation.End < termLocation.Start {
+			continue // inverted location, slicing with it panics
+		}
 		if termLocation.Start < curr {
 			continue
 		}
